@@ -36,7 +36,7 @@ _REC = attach.CallRecorder()
 
 
 def plan(tier, seed):
-    n = 240 if tier == "quick" else 24000
+    n = 2400 if tier == "quick" else 24000
     return [{'idx': i} for i in range(n)]
 
 
